@@ -18,7 +18,7 @@ implementation of the definition that uses reachability only:
  * C06.root     is_control_dependent_on_root and get_control_dependencies agree with the edges of that graph.
 Representatives: straight line, diamond, if without else, nested ifs, while loop, loop with break and
 else, two returns, two infinite loops (both outcomes lead back to the predicate, directly and through a join
-block), unlabelled two-way split (try region), loop nested in a branch.
+block), loops that are a single block (with and without exit), unlabelled two-way split (try region), loop nested in a branch.
 Known on the unchanged tree: the graph is a networkx DiGraph, which keeps one edge per pair of blocks, so a
 block that depends on BOTH outcomes of a predicate (possible in an infinite loop, whose entry is wired to EXIT)
 keeps only one of the two labels.
@@ -74,6 +74,8 @@ def _shapes(key):
         "two returns": [(1, 2, T), (1, 3, F)],
         "infinite loop": [(1, 2, {}), (2, 3, T), (2, 4, F), (3, 2, {}), (4, 2, {})],
         "infinite loop with a join block": [(1, 2, T), (1, 3, F), (2, 4, {}), (3, 4, {}), (4, 1, {})],
+        "single-block infinite loop": [(1, 2, {}), (2, 2, {})],
+        "single-block loop with an exit": [(1, 2, {}), (2, 2, T), (2, 3, F)],
         "unlabelled two-way split": [(1, 2, {}), (1, 5, {}), (2, 3, {}), (5, 3, {})],
         "loop nested in a branch": [(1, 2, T), (1, 6, F), (2, 3, {}), (3, 4, T), (4, 3, {}), (3, 5, F), (5, 6, {})],
     }
@@ -96,7 +98,9 @@ def _oracle(nx, g, start, entry, exit_, key):
 
     edges = set()
     for a, b, data in aug.edges(data=True):
-        if pdom(b, a):
+        # Ferrante et al. define post-dominance without the start node: a block does not post-dominate itself,
+        # so a self edge A -> A (a loop that is one block) induces the dependence of A on itself
+        if b != a and pdom(b, a):
             continue
         for y in aug.nodes:
             if pdom(y, b) and not (y != a and pdom(y, a)):
